@@ -49,6 +49,10 @@ def tick(ctx, label):
     ctx._bp_last = now
 
 
+def tlc_timeout(ctx):
+    return 900 if ctx.quick else 3000
+
+
 def tla_set(xs):
     return "{" + ",".join(json.dumps(x) if isinstance(x, str) else str(x) for x in xs) + "}"
 
@@ -72,10 +76,11 @@ def io_run(ctx, name, *, simulate=None, invariants=IO_INVARIANTS, must_hold=True
                         invariants=list(invariants) + (["EmitInv"] if emit else []))
     if simulate:
         r = ctx.tlc("InsideOutside", cfg, workers=workers, coverage=False, must_hold=must_hold,
-                    simulate={"num": max(1, simulate // workers)}, depth=60)
+                    simulate={"num": max(1, simulate // workers)}, depth=60, timeout=tlc_timeout(ctx))
     else:
-        r = ctx.tlc("InsideOutside", cfg, workers=workers, must_hold=must_hold,
-                    required_actions=IO_ACTIONS if must_hold else ())
+        r = ctx.tlc("InsideOutside", cfg, workers=workers, must_hold=must_hold, timeout=tlc_timeout(ctx),
+                    required_actions=tuple(a for a in IO_ACTIONS if a != "OutsideNode" or kw["NI"] >= 2)
+                    if must_hold else ())
     return r, r.rec("inst")
 
 
@@ -94,9 +99,9 @@ def max_run(ctx, name, *, simulate=None, workers=8, **kw):
                         invariants=MAX_INVARIANTS + (["EmitInv"] if emit else []))
     if simulate:
         r = ctx.tlc("IOMax", cfg, workers=workers, coverage=False, simulate={"num": max(1, simulate // workers)},
-                    depth=60)
+                    depth=60, timeout=tlc_timeout(ctx))
     else:
-        r = ctx.tlc("IOMax", cfg, workers=workers, required_actions=MAX_ACTIONS)
+        r = ctx.tlc("IOMax", cfg, workers=workers, required_actions=MAX_ACTIONS, timeout=tlc_timeout(ctx))
     return r, r.rec("inst")
 
 
@@ -109,7 +114,7 @@ def order_run(ctx, name, *, NS=2, NI=3, max_edges=6, tmax=3, perms="all", emit=F
                         constants={"NS": NS, "NI": NI, "MaxEdges": max_edges, "TMax": tmax,
                                    "PermMode": json.dumps(perms), "EmitDone": "TRUE" if emit else "FALSE"},
                         invariants=list(invariants) + (["EmitInv"] if emit else []))
-    r = ctx.tlc("IOOrder", cfg, workers=workers, must_hold=must_hold,
+    r = ctx.tlc("IOOrder", cfg, workers=workers, must_hold=must_hold, timeout=tlc_timeout(ctx),
                 required_actions=("ChooseDag", "ChooseLabels") if must_hold else ())
     return r, r.rec("inst")
 
@@ -123,7 +128,7 @@ def prob_run(ctx, name, *, G=2, mode="finite", ops=ALL_OPS, max_len=3, emit=True
                         constants={"G": G, "ClassMode": json.dumps(mode), "Ops": tla_set(ops), "MaxLen": max_len,
                                    "EmitDone": "TRUE" if emit else "FALSE"},
                         invariants=(["EmitInv"] if emit else []) + ["Commutes"])
-    r = ctx.tlc("ProbSpace", cfg, workers=workers, must_hold=must_hold,
+    r = ctx.tlc("ProbSpace", cfg, workers=workers, must_hold=must_hold, timeout=tlc_timeout(ctx),
                 required_actions=("PickOp", "PickArgs") if must_hold else ())
     return r, r.rec("case")
 
